@@ -17,7 +17,11 @@ PROPERTY = 'C04'
 RULE = ('Hypothesis-generated programs dense in frame traffic and allocation (array literals with call-valued elements, dynamic '
         'arrays with lengths and indices from argv incl. negative/huge, nested scopes, recursion, arrays passed down, every '
         'library routine), argv, word sizes {2,3,4,8}. For each: the minimal stack size S_min is found by binary search, then the '
-        'checked build is run at every S from S_min+2 down to S_min-3, at 400 words and at one very large stack. Oracle (a): a '
+        'checked build is run at every S from S_min+2 down to S_min-3, at 400 words and at one very large stack; in half of the '
+        'shards dynamic array lengths come from argv and are swept up to the largest length the allocation guard admits (and '
+        'one beyond), so that the allocation guard itself is the binding constraint; plus an exhaustive grid of small programs '
+        'around one dynamic array (earlier expression depth 0-6 x element type x shape of the code that follows) run at every '
+        'stack size from 0 up to two above the first that succeeds. Oracle (a): a '
         'replay monitor judges every load, store and taken jump of the committed path: fp-based accesses within [ap, fp); '
         'element accesses inside the live array extent / global object their base belongs to (extents tracked from every '
         'change of ap); array-literal stores inside the newest extent; nothing through a non-fp base into the frame region, '
@@ -33,7 +37,7 @@ FAULTS = {'stack_overflow', 'division_by_zero', 'out_of_bounds', 'nonlocal_preem
 
 
 def shards(tier):
-    return list(range(16))
+    return list(range(12)) + [('vla_grid', j, 4) for j in range(4)]
 
 
 def has_tt(prog):
@@ -41,6 +45,7 @@ def has_tt(prog):
 
 
 def monitored_run(lines, args, budget=1_500_000):
+    # (also used by the length sweep with a larger budget)
     run = run_lines(lines, args, budget)
     if run.outcome == svm.BUDGET or run.res is None:
         return run, None
@@ -124,14 +129,153 @@ def check_case(stats, case):
                 stats.cls('exactly_full_with_live_array')
                 stats.nt(case_hash([src, repr(vals), ws]))
     stats.cls('programs_ws%d' % ws)
+    # length sweep: if dynamic array lengths come from argv (entry parameter vlen), grow the length until the
+    # allocation guard is the binding constraint, and judge the runs right at that boundary
+    main = [f for f in prog.funcs if f.name == '@is_you'][0]
+    if main.params and main.params[0].name == 'vlen' and ref.kind != 'fault:stack_overflow':
+        def with_len(n):
+            return [n] + list(vals[1:])
+
+        def overflows(n):
+            r = run_lines(build(S0), argv_strings(with_len(n)), budget=3_000_000)
+            return r.overflowed, r
+        lo, hi = vals[0], None
+        n = max(8, vals[0] * 2)
+        while n <= 4 * S0 * ws:
+            o, r = overflows(n)
+            if r.outcome == svm.BUDGET:
+                break
+            if o:
+                hi = n
+                break
+            lo = n
+            n *= 2
+        if hi is not None:
+            while hi - lo > 1:
+                mid = (lo + hi) // 2
+                o, r = overflows(mid)
+                if o:
+                    hi = mid
+                else:
+                    lo = mid
+            for n in (lo, lo - 1, hi):
+                if n < 0:
+                    continue
+                run, mon = monitored_run(build(S0), argv_strings(with_len(n)), budget=3_000_000)
+                stats.evaluated()
+                stats.cls('length_sweep_runs')
+                if run.outcome == svm.BUDGET or run.res is None:
+                    continue
+                where = 'ws=%d S=%d argv=%r (dynamic length swept: largest length without overflow is %d)' % (ws, S0, with_len(n), lo)
+                if run.res.faults:
+                    return ('machine_fault', '%s: machine fault on a (possibly speculative) path: %r\n%s' % (where, run.res.faults[:3], src))
+                if mon.violations:
+                    pc, what, ins, stmt, fn = mon.violations[0]
+                    return ('mem:' + what.split(' ')[0] + ':length', '%s: %s  [pc %d `%s`; %s; %s]\n%s' % (where, what, pc, ins, stmt, fn, src))
+                r2 = reference_for(prog, with_len(n), ws, stack_words=10 ** 7, budget=400_000)
+                if r2.kind == 'budget' or r2.kind.startswith('undefined') or r2.kind == 'halt':
+                    continue
+                if n == hi:
+                    if run.flags[-2:] != ['stack_overflow', 'error'] or (not tt and not r2.output.startswith(run.out)):
+                        return ('length_overflow', '%s: expected a clean stack_overflow with a prefix of the reference output, got %r %r\n%s' % (where, run.out[:80], run.flags, src))
+                elif run.events != r2.events or run.outcome != svm.FOREVER:
+                    return ('length_diff', '%s: events %s, reference %s\n%s' % (where, fmt_events(run.events), fmt_events(r2.events), src))
+                if n == lo:
+                    stats.nt(case_hash([src, repr(with_len(n)), ws, 'len']))
+    return None
+
+
+# ---- dynamic-allocation guard grid -------------------------------------------------------------------------
+def vla_grid_programs():
+    """(name, source) of small programs around one dynamic array: an optional earlier deep expression, the
+    allocation, then code that needs more frame (locals, loops, a nested literal, a callee, a second array)."""
+    out = []
+    vals = {'int': '(i * 3) + 1', 'byte': '(i + 97) is byte', 'bool': '(i % 2) == 0', 'string': '"s"'}
+    show = {'int': 'write(arr[i]);', 'byte': 'write(arr[i]);', 'bool': 'write(arr[i]);', 'string': 'write(arr[i]);'}
+    for k in range(0, 7):
+        params = ', '.join('int a%d' % j for j in range(k))
+        helper = 'int sumk(%s) { return 1%s; }\n' % (params, ''.join(' + a%d' % j for j in range(k))) if k else ''
+        early = "write((64 + sumk(%s)) is byte);" % ', '.join(str(j) for j in range(k)) if k else "write('@');"
+        for el in ('int', 'byte', 'bool', 'string'):
+            fill = 'for (int i = 0; i < n; i += 1) { arr[i] = %s; }' % vals[el]
+            dump = 'for (int i = 0; i < n; i += 1) { %s }' % show[el]
+            shapes = {
+                'locals': 'int total = 0; %s for (int i = 0; i < n; i += 1) { total += i; } %s write(total %% 10);' % (fill, dump),
+                'literal': '%s { int[] z = [n, 2, 3]; write(z[0] + z[2]); } %s' % (fill, dump),
+                'callee': '%s touch(arr.length); %s' % (fill, dump),
+                'second': 'byte b2[n]; %s for (int i = 0; i < n; i += 1) { b2[i] = (i + 48) is byte; } %s write(b2);' % (fill, dump),
+                'loop': 'for (int r = 0; r < 2; r += 1) { int w = r + n; write(w); } %s %s' % (fill, dump),
+            }
+            for sname, body in shapes.items():
+                src = helper + 'empty touch(int q) { int u = q + 1; int v = u * 2; write(v); }\n' + \
+                    'empty @is_you(int n) {\n  %s\n  %s arr[n];\n  %s\n}\n' % (early, el, body)
+                out.append(('early%d:%s:%s' % (k, el, sname), src))
+    return out
+
+
+def check_vla_grid(stats, name, src, ws, n):
+    from harness.progcase import check_source_program
+    from ref.parse import parse_program
+    from ref.types import check_program as tcheck
+    prog = parse_program(src)
+    tcheck(prog)
+    ref = reference_for(prog, [n], ws, stack_words=10 ** 7)
+    if ref.kind != 'win':
+        raise Discard('reference: ' + ref.kind)
+    won_at = None
+    S = 0
+    while S <= 120:
+        lines = compile_lines(src, ws, S, False)
+        run, mon = monitored_run(lines, [str(n)])
+        stats.evaluated()
+        stats.cls('vla_grid_runs')
+        where = 'dynamic-array grid %s ws=%d n=%d S=%d' % (name, ws, n, S)
+        if run.res is None:
+            return ('asm', where + ': ' + run.outcome + '\n' + src)
+        if run.res.faults:
+            return ('machine_fault', '%s: machine fault on a (possibly speculative) path: %r\n%s' % (where, run.res.faults[:3], src))
+        if mon.violations:
+            pc, what, ins, stmt, fn = mon.violations[0]
+            return ('mem:' + what.split(' ')[0] + ':grid', '%s: %s  [pc %d `%s`; %s]\n%s' % (where, what, pc, ins, stmt, src))
+        if run.overflowed:
+            if run.flags[-2:] != ['stack_overflow', 'error'] or not ref.output.startswith(run.out):
+                return ('grid_overflow', '%s: output %r flags %r is not a clean overflow after a prefix of %r\n%s' % (where, run.out, run.flags, ref.output, src))
+        else:
+            if run.events != ref.events or run.outcome != svm.FOREVER:
+                return ('grid_diff', '%s: events %s, reference %s\n%s' % (where, fmt_events(run.events), fmt_events(ref.events), src))
+            if won_at is None:
+                won_at = S
+                if mon.min_gap is not None and mon.min_gap < ws and mon.min_gap_arrays > 0:
+                    stats.nt('grid:%s:%d:%d' % (name, ws, n))
+        if won_at is not None and S >= won_at + 2:
+            break
+        S += 1
     return None
 
 
 def run_shard(k, seed, tier):
     stats = Stats()
-    n = 130 if tier == 'quick' else 2500
+    if isinstance(k, tuple):
+        progs = vla_grid_programs()
+        for pi, (name, src) in enumerate(progs):
+            if pi % k[2] != k[1]:
+                continue
+            for ws in ((2, 4) if tier == 'quick' else (2, 3, 4, 8)):
+                for n in ((3, 10) if tier == 'quick' else (0, 1, 3, 10, 17)):
+                    try:
+                        m = check_vla_grid(stats, name, src, ws, n)
+                    except Discard as d:
+                        stats.discard(d.why)
+                        continue
+                    if m:
+                        stats.violation({'kind': 'vla_grid', 'value': [name, ws, n], 'message': m[1], 'signature': m[0]})
+            if pi % 40 == k[1]:
+                stats.sample({'kind': 'dynamic-array grid', 'name': name, 'source': src})
+        stats.exhaustive = True
+        return stats
+    n = 100 if tier == 'quick' else 2500
     feats = (SEQ_FEATURES if k % 3 else ALL_FEATURES) - {'terminal'}
-    strat = programs(features=feats, size=dict(main_stmts=10, funcs=4, arr_len=6, max_params=5, deep_before_vla_pct=40))
+    strat = programs(features=feats, size=dict(main_stmts=10, funcs=4, arr_len=6, max_params=5, deep_before_vla_pct=40, argv_vla=(k % 2 == 0)))
 
     def chk(case):
         if stats.evaluations % 200 == 0:
@@ -146,6 +290,16 @@ def run_shard(k, seed, tier):
 
 
 def replay(case):
+    if case.get('kind') == 'vla_grid':
+        name, ws, n = case['value']
+        for n2, src in vla_grid_programs():
+            if n2 == name:
+                try:
+                    m = check_vla_grid(Stats(), name, src, ws, n)
+                except Discard:
+                    return None
+                return m[1] if m else None
+        return 'unknown grid program'
     prog, vals, ws = case_from_json(case)
     try:
         r = check_case(Stats(), (prog, vals, ws))
